@@ -72,6 +72,7 @@ KeepSet(P, V, ctx, b) == {i \in 1..Len(b) :
                     IF IsDecl(b[i])
                     THEN /\ P.keepAllProperties \/ i = EffIdx(b, b[i].name)
                          /\ P.validOnly => ValidIn(ctx, b[i].name, IF P.resolveVariables THEN Resolve(V, b[i].value) ELSE b[i].value)   \* the value as written
+                    ELSE IF b[i].k = "unknown" THEN P.keepUnknownAtRules          \* an unknown at-rule nested in the block
                     ELSE IsComment(b[i]) => P.keepComments}
 EffBody(P, V, ctx, b) ==
     LET kept == PickIdx(b, KeepSet(P, V, ctx, b))
